@@ -4,7 +4,7 @@ From XV Require Import lib.Bytes.
 (* ---- jid/jid.go ---- *)
 Definition jid_forbidden_local : bytes := hex "2226272f3a3c3e40".
 Definition jid_local_max : N := 1023.
-Definition jid_resource_max : N := 0.
+Definition jid_resource_max : N := 1023.
 Definition jid_domain_min : N := 1.
 Definition jid_domain_max : N := 1023.
 
@@ -25,4 +25,3 @@ Definition jid_write_sites : list (bytes * wkind) := [
   (hex "4e6577556e736166653a64617461", WFresh)  (* NewUnsafe: data *);
   (hex "4e6577556e736166653a64617461", WFresh)  (* NewUnsafe: data *)].
 Definition jid_writers : list bytes := [hex "4e6577" (* New *); hex "576974684c6f63616c" (* WithLocal *); hex "57697468446f6d61696e" (* WithDomain *); hex "576974685265736f75726365" (* WithResource *); hex "4e6577556e73616665" (* NewUnsafe *)].
-(* TRANSLATOR-ERROR: jid/jid.go: a length limit comparison was not found (len(localpart) > N, len(resourcepart) > N, l < N || l > N) *)
